@@ -41,6 +41,13 @@ type c05Case struct {
 	// reacted to the timeout, then sends the rest. Only "no payload octet is
 	// executed" is demanded then.
 	StallAt int `json:"stall_at,omitempty"`
+	// Prior: chunk sizes of an earlier chunked transaction on the same
+	// connection (one recipient), ended by LAST on its final chunk or, with
+	// PriorRset, abandoned by RSET. With Limit > 0 in the valid and badlast
+	// states the server has that MaxMessageBytes, which every message of the
+	// case fits: nothing changes.
+	Prior     []int `json:"prior,omitempty"`
+	PriorRset bool  `json:"prior_rset,omitempty"`
 }
 
 const c05Bait = "MAIL FROM:<bait@x>\r\nRCPT TO:<bait@x>\r\nQUIT\r\nDATA\r\nBDAT 3 LAST\r\n"
@@ -68,6 +75,21 @@ func c05Build(c c05Case) c05Plan {
 	var p c05Plan
 	lmtp := c.Mode != 0
 	p.pre.cmd(greetWord(lmtp)+" cli", expect{Code: 250, What: "greeting"})
+	if len(c.Prior) > 0 {
+		p.pre.cmd("MAIL FROM:<p@x>", expect{Code: 250, What: "earlier MAIL"})
+		p.pre.cmd("RCPT TO:<p0@x>", expect{Code: 250, What: "earlier RCPT"})
+		for i, n := range c.Prior {
+			line := fmt.Sprintf("BDAT %d", n)
+			if i == len(c.Prior)-1 && !c.PriorRset {
+				line += " LAST"
+			}
+			p.pre.cmd(line, expect{Code: 250, What: "earlier chunk"})
+			p.pre.raw(bytes.Repeat([]byte{'p'}, n))
+		}
+		if c.PriorRset {
+			p.pre.cmd("RSET", expect{Code: 250, What: "RSET of the earlier transfer"})
+		}
+	}
 	if c.State != "nomail" {
 		p.pre.cmd("MAIL FROM:<s@x>", expect{Code: 250, What: "MAIL"})
 		for i := 0; i < c.NRcpt; i++ {
@@ -163,8 +185,19 @@ func c05Run(c c05Case) Verdict {
 	if stall {
 		cfg.ReadTimeoutMs = 30
 	}
-	if c.State == "overlimit" {
+	if c.State == "overlimit" || ((c.State == "valid" || c.State == "badlast") && c.Limit > 0) {
 		cfg.MaxMessageBytes = c.Limit
+		total := 0
+		for _, ch := range c.Chunks {
+			total += len(ch.Payload)
+		}
+		prior := 0
+		for _, n := range c.Prior {
+			prior += n
+		}
+		if c.State != "overlimit" && (int64(total) > c.Limit || int64(prior) > c.Limit) {
+			return Verdict{Inconclusive: "limit below a message of a state that says it fits (generator bug)"}
+		}
 	}
 	script := harness.Script{LMTPSession: c.Mode == 2, GateStart: c.GateStart,
 		DefaultData: &harness.DataPlan{Read: harness.ReadPlan{Sizes: c.Reads, Limit: -1}, Honest: true}}
@@ -181,10 +214,17 @@ func c05Run(c c05Case) Verdict {
 	}
 	w.Recv()
 	out, st := w.Exchange(p.pre.buf)
+	for i := 0; c.GateStart && st == harness.QGate && i < 64; i++ {
+		// the earlier transfer's delivery is waiting for its start
+		r.B.ReleaseArrived()
+		st = w.WaitQuiet()
+		out = append(out, w.Recv()...)
+	}
 	if st != harness.QIdle {
 		w.Finish()
 		return Verdict{Inconclusive: "server not idle after preamble: " + st}
 	}
+	nPre := len(r.B.Events())
 	prs, err := harness.ParseReplies(out)
 	if err != nil {
 		w.Finish()
@@ -275,7 +315,18 @@ func c05Run(c c05Case) Verdict {
 		}
 	}
 
-	evs := r.B.Events()
+	evs := r.B.Events()[nPre:]
+	if len(c.Prior) > 0 {
+		v.Classes = append(v.Classes, "after_earlier_chunked_transaction")
+		// the earlier delivery is over by the time its last command is answered
+		b0, e0 := dataBegins(r.B.Events()[:nPre]), dataEvents(r.B.Events()[:nPre])
+		if len(b0) != len(e0) {
+			return failf("earlier-data-open", "the earlier transfer was answered but its Data call has not returned; trace %s", traceString(r.B.Events()[:nPre]))
+		}
+	}
+	if cfg.MaxMessageBytes > 0 && c.State != "overlimit" {
+		v.Classes = append(v.Classes, "fits_size_limit")
+	}
 	for _, e := range evs {
 		if strings.Contains(e.From, "bait") || strings.Contains(e.To, "bait") {
 			return failf("bait-executed", "payload of a BDAT chunk was executed as a command: %s", e)
@@ -408,6 +459,30 @@ func c05Gen(t *rapid.T) c05Case {
 			seenLast = c.Chunks[i].Last
 		}
 	}
+	if c.State != "nomail" && c.State != "norcpt" && rapid.IntRange(0, 3).Draw(t, "prior") == 0 {
+		total := 0
+		for _, ch := range c.Chunks {
+			total += len(ch.Payload)
+		}
+		bound := total
+		if c.State == "overlimit" {
+			bound = int(c.Limit)
+		} else if rapid.Bool().Draw(t, "fits_limit") {
+			c.Limit = int64(total + rapid.IntRange(0, 2).Draw(t, "limit_slack"))
+			if c.Limit == 0 {
+				c.Limit = 1
+			}
+			bound = int(c.Limit)
+		}
+		rem := rapid.IntRange(0, bound).Draw(t, "prior_total")
+		for k := rapid.IntRange(1, 3).Draw(t, "prior_chunks"); k > 1; k-- {
+			n := rapid.IntRange(0, rem).Draw(t, "prior_chunk")
+			c.Prior = append(c.Prior, n)
+			rem -= n
+		}
+		c.Prior = append(c.Prior, rem)
+		c.PriorRset = rapid.Bool().Draw(t, "prior_rset")
+	}
 	p := c05Build(c)
 	c.Reads = genReadSizes(t, "reads")
 	c.GateStart = rapid.IntRange(0, 2).Draw(t, "gate_start") == 0
@@ -419,6 +494,7 @@ func c05Gen(t *rapid.T) c05Case {
 		pb := c05Build(c)
 		c.StallAt = rapid.IntRange(1, len(pb.body.buf)-1).Draw(t, "stall_at")
 		c.GateStart = false
+		c.Limit = 0 // the payloads have grown
 	}
 	// segmentation: interesting positions are the ends of command lines
 	var ends []int
@@ -449,7 +525,7 @@ func init() {
 
 func TestC05(t *testing.T) {
 	registerAll()
-	st.Rule = "cases = (chunk list with payloads over all 256 octets / bait commands / LF-free runs around the line limit, LAST placement, VRFY markers after chunks, session state valid|nomail|norcpt|badlast|overlimit, line limit, SMTP/LMTP mode, segmentation of the BDAT part, backend read sizes); non-trivial = >=2 chunks OR a refused BDAT with payload OR an LF-free run longer than the line limit OR a BDAT line sharing its segment with the octets that follow; distinct = hash of the whole case"
+	st.Rule = "cases = (chunk list with payloads over all 256 octets / bait commands / LF-free runs around the line limit, LAST placement, VRFY markers after chunks, session state valid|nomail|norcpt|badlast|overlimit, optional earlier chunked transaction (completed or RSET) and a size limit the messages fit, line limit, SMTP/LMTP mode, segmentation of the BDAT part, backend read sizes); non-trivial = >=2 chunks OR a refused BDAT with payload OR an LF-free run longer than the line limit OR a BDAT line sharing its segment with the octets that follow; distinct = hash of the whole case"
 	if !regress(t, "C05") {
 		return
 	}
